@@ -43,6 +43,11 @@ func (k Keeper) UpdateRewardPool(ctx context.Context, gas []*goattypes.GasReques
 
 	reward := big.NewInt(param.InitialBlockReward)
 	if halvings := sdkctx.BlockHeight() / param.HalvingInterval; halvings > 0 {
+		// the reward is an int64: every divisor from 2^64 on gives the same quotient,
+		// and 2^halvings must not be materialized for a huge height/interval ratio
+		if halvings > 64 {
+			halvings = 64
+		}
 		count := big.NewInt(2)
 		count.Exp(count, big.NewInt(halvings), nil)
 		reward.Div(reward, count)
